@@ -265,7 +265,115 @@ func runC12(c *eng.Ctx) {
 			c.Ob("MIRROR-add-delete", eng.FuncName(fn)+" delete-signature", got == ref, fn.Pos(), fmt.Sprintf("counters decremented for a removed volume {%s} must mirror the counters incremented when it was added {%s}", got, ref))
 		}
 	}
-	c.Expect("MIRROR-add-delete", 3)
+	// GUARD-registered: a removal is accounted with the registered volume info (the incremental message only names
+	// the volume: it carries no remote flag, and the volume may already have been removed by a full heartbeat)
+	for _, spec := range []struct{ pkg, name string }{{"weed/topology", "(*DataNode).UpdateVolumes"}, {"weed/topology", "(*DataNode).DeltaUpdateVolumes"}} {
+		fn := c.NeedFunc(spec.pkg, spec.name)
+		if fn == nil {
+			continue
+		}
+		var decs []ssa.Instruction
+		for _, st := range usageStores(fn)["volumeCount"] {
+			if k, isK := eng.ConstInt(st.Val); isK && k == -1 {
+				decs = append(decs, st)
+			}
+		}
+		if len(decs) != 1 {
+			c.Undecided("GUARD-registered", eng.FuncName(fn), fn.Pos(), "expected one volume-count decrement")
+			continue
+		}
+		registered := func(v ssa.Value) bool {
+			switch x := v.(type) {
+			case *ssa.Extract:
+				lk, ok := x.Tuple.(*ssa.Lookup)
+				return ok && x.Index == 0 && eng.IsField(lk.X, "Disk.volumes")
+			case *ssa.Lookup:
+				return eng.IsField(x.X, "Disk.volumes")
+			case *ssa.Call:
+				return eng.CalleeIs(x, "topology.DataNode).getVolumes", "topology.DataNode).GetVolumes")
+			}
+			return false
+		}
+		fromMessage := func(v ssa.Value) bool {
+			p, ok := v.(*ssa.Parameter)
+			return ok && p != fn.Params[0]
+		}
+		okSrc := true
+		nFlags := 0
+		for _, in := range eng.Find(fn, eng.PlainCallTo("storage.VolumeInfo).IsRemote")) {
+			nFlags++
+			arg := in.(*ssa.Call).Call.Args[0]
+			for _, v := range eng.Resolve(arg) {
+				if !eng.Mentions(v, 8, registered) || eng.Mentions(v, 8, fromMessage) {
+					okSrc = false
+				}
+			}
+		}
+		c.Ob("GUARD-registered", eng.FuncName(fn)+" flags-of-registered-info", okSrc && nFlags > 0, decs[0].Pos(), "the remote flag that decides the remote-count decrement is read from the registered volume info, not from the heartbeat message")
+		// when the info comes from a lookup, nothing is decremented for a volume that is not registered
+		var lookups []ssa.Instruction
+		for _, in := range eng.Find(fn, func(in ssa.Instruction) bool { lk, ok := in.(*ssa.Lookup); return ok && lk.CommaOk && eng.IsField(lk.X, "Disk.volumes") }) {
+			lookups = append(lookups, in)
+		}
+		if len(lookups) > 0 {
+			found := eng.PassEdges(fn, eng.BoolVal(true, func(v ssa.Value) bool {
+				ex, ok := v.(*ssa.Extract)
+				return ok && ex.Index == 1 && ex.Tuple == lookups[0].(ssa.Value)
+			}))
+			c.Guard("GUARD-registered", "only-if-registered", fn, eng.Entry(fn), decs, found, "the counts are decremented only for a volume that is registered on the disk")
+		}
+	}
+	c.Expect("GUARD-registered", 3)
+
+	// an already registered volume that changes tier adjusts the remote count in both directions: +1 on the
+	// edge where the reported info is remote, -1 on the edge where the stored info was remote, both only under
+	// "the remote flag changed", and the delta is sent upwards after either
+	if add != nil {
+		isRemote := func(param bool) func(ssa.Value) bool {
+			return func(v ssa.Value) bool {
+				call, ok := v.(*ssa.Call)
+				if !ok || !eng.CalleeIs(call, "storage.VolumeInfo).IsRemote") {
+					return false
+				}
+				return eng.Mentions(call.Call.Args[0], 4, func(x ssa.Value) bool { return eng.IsParamLike(x, "v") }) == param
+			}
+		}
+		changed := eng.PassEdges(add, eng.Cmp(isRemote(false), isRemote(true), token.NEQ))
+		newRemote := eng.PassEdges(add, eng.BoolVal(true, isRemote(true)))
+		oldRemote := eng.PassEdges(add, eng.BoolVal(true, isRemote(false)))
+		var plus, minus []ssa.Instruction
+		for _, st := range usageStores(add)["remoteVolumeCount"] {
+			k, isK := eng.ConstInt(st.Val)
+			if !isK {
+				continue
+			}
+			// only the update branch (the stored info was found)
+			if hit, _ := eng.Search(eng.Entry(add), eng.Is(st), eng.SearchOpt{Cut: changed}); hit != nil {
+				continue
+			}
+			if k == 1 {
+				plus = append(plus, st)
+			} else if k == -1 {
+				minus = append(minus, st)
+			}
+		}
+		okT := len(changed) > 0 && len(plus) == 1 && len(minus) == 1
+		if okT {
+			if hit, _ := eng.Search(eng.Entry(add), eng.Is(plus[0]), eng.SearchOpt{Cut: newRemote}); hit != nil {
+				okT = false
+			}
+			if hit, _ := eng.Search(eng.Entry(add), eng.Is(minus[0]), eng.SearchOpt{Cut: oldRemote}); hit != nil {
+				okT = false
+			}
+			for _, st := range []ssa.Instruction{plus[0], minus[0]} {
+				if hit, _ := eng.Search(eng.After(st), eng.IsReturn, eng.SearchOpt{Barrier: eng.PlainCallTo("topology.NodeImpl).UpAdjustDiskUsageDelta", "topology.Disk).UpAdjustDiskUsageDelta")}); hit != nil {
+					okT = false
+				}
+			}
+		}
+		c.Ob("MIRROR-add-delete", eng.FuncName(add)+" tier-transition-both-ways", okT, add.Pos(), fmt.Sprintf("a registered volume that changes tier adjusts the remote count by +1 (now remote) or -1 (was remote) and propagates it (found %d increments, %d decrements under the changed-flag test)", len(plus), len(minus)))
+	}
+	c.Expect("MIRROR-add-delete", 4)
 
 	// ---------------------------------------------------------------- (5) PROV-ec-delta
 	for _, name := range []string{"(*Disk).AddOrUpdateEcShard", "(*Disk).DeleteEcShard"} {
